@@ -351,8 +351,46 @@ func (e Expr) Spelled(mode string) string { return e.text(&speller{mode: mode}) 
 var spellings = []string{"", "wide", "tight", "tabs", "mixed"}
 
 type speller struct {
-	mode string
-	n    int // alternation counter of the mixed mode
+	mode   string
+	n      int    // alternation counter of the mixed mode
+	strict int    // the first strict == / != operators are written === / !==
+	keys   string // "s" / "d": every .name step of a path is written ['name'] / ["name"]
+}
+
+// bracketKeys rewrites the .name steps of a path as quoted bracket steps: a.b -> a['b'].
+func bracketKeys(path, style string) string {
+	q := "'"
+	if style == "d" {
+		q = `"`
+	}
+	var sb strings.Builder
+	inQuote := byte(0)
+	for i := 0; i < len(path); i++ {
+		c := path[i]
+		switch {
+		case inQuote != 0:
+			if c == inQuote {
+				inQuote = 0
+			}
+			sb.WriteByte(c)
+		case c == '\'' || c == '"':
+			inQuote = c
+			sb.WriteByte(c)
+		case c == '.':
+			j := i + 1
+			for j < len(path) && (path[j] == '_' || path[j] >= '0' && path[j] <= '9' || path[j] >= 'a' && path[j] <= 'z' || path[j] >= 'A' && path[j] <= 'Z') {
+				j++
+			}
+			if j == i+1 || j < len(path) && path[j] == '-' || path[i+1] >= '0' && path[i+1] <= '9' {
+				return path // hyphenated or numeric dot steps are vuego's own syntax: left alone
+			}
+			sb.WriteString("[" + q + path[i+1:j] + q + "]")
+			i = j - 1
+		default:
+			sb.WriteByte(c)
+		}
+	}
+	return sb.String()
 }
 
 // around returns the text before and after a token of kind arith | sym | tern | comma.
@@ -403,7 +441,12 @@ func (s *speller) around(kind string) (string, string) {
 
 func (e Expr) text(sp *speller) string {
 	switch e.K {
-	case "path", "int", "float", "bool":
+	case "path":
+		if sp.keys != "" {
+			return bracketKeys(e.V, sp.keys)
+		}
+		return e.V
+	case "int", "float", "bool":
 		return e.V
 	case "str":
 		return quote(e.V, e.Q)
@@ -456,7 +499,12 @@ func (e Expr) text(sp *speller) string {
 		if prec(r) <= me {
 			rs = "(" + rs + ")"
 		}
-		return ls + bl + e.V + br + rs
+		op := e.V
+		if (op == "==" || op == "!=") && sp.strict > 0 {
+			sp.strict--
+			op += "=" // === and !== mean == and !=
+		}
+		return ls + bl + op + br + rs
 	}
 	return "?" + e.K
 }
